@@ -347,6 +347,14 @@ def required_batches(prop, tier, seed, work, res, quick):
             cases.append({"cid": cid, "w": "WRiN", "val": {"f": {"1": {"nil": False, "items": [{"p": 1, "v": ri}]}, "2": {"p": 1, "v": ri}}, "unk": []},
                           "ord": ORDS[n % 4], "trail": [], "mut": "none"})
             plans[cid] = ("TRiN", "required-init-nested")
+    # list / set confusion: the writer's set arrives where the reader requires a list (and the other way round)
+    for a in (0, 1):
+        n += 1
+        cid = "C09-listset-%d" % n
+        cases.append({"cid": cid, "w": "WLs", "val": {"f": {"1": {"nil": False, "items": [[0, 0, 0, 1], [0, 0, 0, 2]] if a else []},
+                                                            "2": {"nil": False, "items": [list(b"a")] if a else []}, "3": [0, 0, 0, 3]}, "unk": []},
+                      "ord": ORDS[n % 4], "trail": [], "mut": "none"})
+        plans[cid] = ("TLsR", "listset-required")
     # one field written twice and another one left out: a duplicate never stands in for a missing field
     dupcases = []
     full = {"f": {str(i): {"p": 1, "v": U.be(i + 7, 4)} for i in ids}, "unk": []}
@@ -393,8 +401,10 @@ def required_encode_batch(prop, quick):
     T, L, SET, M, ST, field, struct = U.T, U.L, U.SET, U.M, U.ST, U.field, U.struct
     defs = U.leaf_structs()
     kinds = [T(k) for k in U.SCALARS] + [T("binary"), L(T("i32")), SET(T("string")), M(T("string"), T("i32")), ST("Leaf", True), ST("Leaf", False),
-                                         L(ST("Leaf", True)), M(T("i32"), ST("Leaf", True)), L(L(T("i16"))), ST("LeafUnk", True)]
-    ids = [0, 1, 63, 64, 65, 127, 128, 255, 256, 1023, 1024, 4095, 4096, 32767, 32768, 40000, 65534, 65535, 2, 3, 4, 5, 6, 7]
+                                         L(ST("Leaf", True)), M(T("i32"), ST("Leaf", True)), L(L(T("i16"))), ST("LeafUnk", True),
+                                         ST("Ack", True), ST("Ack", False), L(ST("Ack", True))]
+    defs["Ack"] = struct([])          # a struct with no fields at all: on the wire just STOP, but it is there
+    ids = [0, 1, 63, 64, 65, 127, 128, 255, 256, 1023, 1024, 4095, 4096, 32767, 32768, 40000, 65534, 65535, 2, 3, 4, 5, 6, 7, 8, 9, 10]
     defs["ReqAll"] = struct([field(ids[j], "required", t) for j, t in enumerate(kinds)])
     defs["ReqAllN"] = struct([field(1, "required", ST("ReqAll", True)), field(2, "required", ST("ReqAll", False)), field(3, "required", L(ST("ReqAll", True))),
                               field(4, "default", M(T("string"), ST("ReqAll", True))), field(5, "optional", ST("ReqAll", True))])
@@ -425,7 +435,13 @@ def required_encode_batch(prop, quick):
 # ---- C10 -------------------------------------------------------------------------------------
 def defaults_universe():
     uf = U.universe_fields()
-    defs = {k: uf[k] for k in ("Leaf", "LeafReq", "LeafUnk", "Defaults", "DefNc", "DefNcN")}
+    defs = {k: uf[k] for k in ("Leaf", "LeafReq", "LeafUnk", "Fix", "Defaults", "DefNc", "DefNcN", "OptVal")}
+    # the same type with its fields declared in another order / with untagged members in front (defaults belong to ids)
+    import copy as _copy
+    for nm, decl in (("DefaultsR", "rev"), ("DefaultsS", "shuf")):
+        defs[nm] = _copy.deepcopy(uf["Defaults"])
+        defs[nm]["decl"] = decl
+        defs[nm]["fields"][2]["before"] = ["Untagged int64", "hidden string"]
     # writers: everything optional by pointer so that any subset can be omitted on the wire
     dfl = defs["Defaults"]["fields"]
     wf = []
@@ -475,7 +491,7 @@ def defaults_batches(prop, tier, seed, work, res, quick, rng):
     defs_path = vlib.write_defs(work, defs)
     scen = []
     # (1) encoder: presence of optional fields for values equal / different from the default
-    for s in ("Defaults", "DNest", "DTop", "DefNc", "DefNcN"):
+    for s in ("Defaults", "DNest", "DTop", "DefNc", "DefNcN", "DefaultsR", "DefaultsS", "OptVal"):
         sizes = [0, 1, 2] if quick else [0, 1, 2, 9]
         for salt in ((0,) if quick else (0, 1, 2)):
             for label, v in U.struct_variants(s, defs, sizes, [0, 1, 4], salt):
@@ -506,6 +522,7 @@ def defaults_batches(prop, tier, seed, work, res, quick, rng):
         cid = "C10-dec-top-%d" % n
         cases.append({"cid": cid, "w": "WDefaults", "val": omit(wbase, sub), "ord": ORDS[n % 4], "trail": [], "mut": "none"})
         plans[cid] = ("Defaults", n)
+        plans[cid + "|R"] = ("DefaultsR" if n % 2 else "DefaultsS", n)
         inner = omit(wbase, sub)
         wn = {"f": {"1": {"p": 1, "v": inner}, "2": inner, "3": {"nil": False, "items": [{"p": 1, "v": inner}, {"p": 1, "v": wbase}]},
                     "4": {"nil": False, "ents": [[list(b"k"), {"p": 1, "v": inner}]]}, "5": {"p": 1, "v": inner},
@@ -537,6 +554,6 @@ def defaults_batches(prop, tier, seed, work, res, quick, rng):
     res.tlc_transitions += st.get("generated", 0)
     for cid, (t, n) in plans.items():
         for dest in ("fresh", "zero", "val"):
-            sc = decode_scenario(prop, cid + "-" + dest, t, msgs[cid][0], dest, defs, label="defaults")
+            sc = decode_scenario(prop, cid + "-" + dest, t, msgs[cid.split("|")[0]][0], dest, defs, label="defaults")
             scen.append(sc)
     return [Batch("defaults", defs, scen)]
